@@ -5,13 +5,22 @@ import json, sys
 pid = sys.argv[1]
 suffix = sys.argv[2] if len(sys.argv) > 2 else ""
 p = next(json.loads(l) for l in open('/verif/properties.jsonl') if json.loads(l)['id'] == pid)
+import glob, os
+prev = []
+for d in sorted(glob.glob(f'/verif/seeded/{pid}*/meta.json')):
+    m = json.load(open(d))
+    prev.append('- ' + str(m.get('what', ''))[:400].replace('\n', ' ') + ' (files: ' + ', '.join(m.get('files', [])) + ')')
+prevtxt = ''
+if suffix and prev:
+    prevtxt = ("\nEarlier seeders already delivered the following changes for this property. Yours must differ from all of them in kind AND location "
+               "(different function / different mechanism / different entry point of the property; prefer parts of the property statement they did not touch):\n" + '\n'.join(prev) + '\n')
 print(f"""You are testing a verification framework by seeding realistic defects ("mutants") into ChainSafe/gossamer (a Go implementation of the Polkadot host; repo at /repo). There is no network. Do NOT read anything under /verif or /root/.vp — your mutants must be independent of whatever checks exist.
 
 Property {pid}: {p['title']}
 Statement: {p['statement']}
 Quantified over: {p['quantifier']['text']}
 Anchored in files: {', '.join(p['anchors']['files'])}
-
+{prevtxt}
 Task: produce TWO different changes (mutant a and mutant b; make them different in kind and location). Each is a change to NON-test Go source of gossamer which
  (1) breaks the property above — a realistic regression a developer could introduce (wrong comparison at a boundary, dropped check, reordered writes, wrong variable, missing lock, stale cache, early return, off-by-one ...), not sabotage that makes everything fail;
  (2) still compiles (`go build ./...`) and passes the EXISTING tests of every package it touches and of the obvious dependents — run them (`go test -vet=off -count=1 ./path/...`) and compare any failure against the unmodified tree (a test failing both with and without the change is exempt; many runtime tests need network and always fail);
